@@ -9,7 +9,7 @@ Proof.
   intros w k i w' r H. unfold call_gf in H.
   destruct (nth_error (insts w) i) as [ins|]; [|inversion H; auto].
   destruct (get w (i_cid ins)) as [c|]; [|inversion H; auto].
-  destruct (co_prec c) as [|key p]; [inversion H; auto|].
+  destruct (hier c) as [|key p]; [inversion H; auto|].
   destruct (lookup (g_cache (get_gf w k)) key); [inversion H; auto|].
   destruct (applicable (get_gf w k) (key :: p)); inversion H; auto.
 Qed.
@@ -91,6 +91,7 @@ Lemma table_defclass : forall w n supers slots ro co, Inv w -> g_defclass w n su
   forall m, table (defclass w n supers slots ro co) m = tupd (table w) n supers m.
 Proof.
   intros w n supers slots ro co HI G m. destruct (defclass_inv w n supers slots ro co HI G) as [_ E].
+  change (table (defclass w n supers slots ro co) m) with (table (defclass_merged w n supers slots ro co) m).
   rewrite (ext_table _ _ E). unfold tupd. destruct (Nat.eqb m n) eqn:Emn.
   - apply Nat.eqb_eq in Emn. subst m. unfold table. rewrite (reg_wr_same w n supers slots).
     destruct (defclass_reg_shape w n supers slots) as [_ [_ [newc [Hh [_ [N2 _]]]]]].
